@@ -2,28 +2,7 @@ package sim
 
 import (
 	"net/http"
-	"reflect"
-
-	"google.golang.org/grpc"
 )
-
-func isNilValue(v any) bool {
-	if v == nil {
-		return true
-	}
-	rv := reflect.ValueOf(v)
-	return rv.Kind() == reflect.Ptr && rv.IsNil()
-}
-
-func (s *Sim) decorateRegistrar(reg grpc.ServiceRegistrar) grpc.ServiceRegistrar { return reg }
-func (s *Sim) decorateDesc(d *grpc.ServiceDesc) *grpc.ServiceDesc                 { return d }
-func (s *Sim) wrapClient(c grpc.ClientConnInterface) grpc.ClientConnInterface     { return c }
-func (s *Sim) setupTLS(e *Env)                                                    { go e.hs.Serve(e.ln) }
-
-type grpcCarrier struct{}
-
-func (g *grpcCarrier) shutdown()                                         {}
-func (s *Sim) setupGRPC(e *Env, register func(grpc.ServiceRegistrar))    {}
 
 type proxyRT struct {
 	s    *Sim
